@@ -104,6 +104,9 @@ func (d *drv) scenario(in c02.Input) *c02.Scen {
 		return s
 	}
 	raw := c02.Families()[in.Hasher] // the hasher itself, not the recorder the merklizer holds
+	if !in.Cfg {
+		raw = c02.Families()[in.DefaultFamily] // the package default in force when the merklizer was built
+	}
 	r := d.cfg.Rng
 	d.rep.Count(fmt.Sprintf("hasher:%s cfg=%v", c02.FamilyName(in.Hasher), in.Cfg))
 	e.RootStep(s)
@@ -118,10 +121,27 @@ func (d *drv) scenario(in c02.Input) *c02.Scen {
 		if len(v.Parts) <= 5 {
 			e.BuildChecks(s, v.Parts)
 		}
-		if !in.Cfg {
-			continue
-		}
+		e.ArgSliceChecks(s, v.Parts)
 		fin := map[string]any{"scenario": in, "path": v.Parts}
+		if !in.Cfg && in.SetAfter == 0 {
+			// package-level constructors pin the LIVE package default, which is this merklizer's hasher
+			e.Proof(s, 1, v.Parts, "member")
+			pp, _ := merklize.NewPath(v.Parts...)
+			ne, nerr := merklize.NewRDFEntry(pp, v.Value)
+			k0, _ := indepKey(raw, v.Parts)
+			iv, ierr := indepValue(raw, v.Value)
+			if nerr == nil && k0 != nil {
+				nk, nv, kverr := ne.KeyValueMtEntries()
+				if kverr != nil || nk.Cmp(k0) != 0 || (ierr == nil && nv.Cmp(iv) != 0) {
+					d.rep.Fail("c16-package-constructor-hasher", fmt.Sprintf("merklize.NewRDFEntry(merklize.NewPath(%v), v) does not hash with the package default hasher selected by SetHasher", v.Parts), fin)
+				}
+			}
+			if hv, herr := merklize.HashValue(v.Datatype, hashValueArg(v.Value)); herr == nil && ierr == nil && v.Datatype != "" && hv.Cmp(iv) != 0 {
+				if _, isStr := v.Value.(string); isStr {
+					d.rep.Fail("c16-package-constructor-hasher", fmt.Sprintf("merklize.HashValue of the string value of %v does not use the package default hasher", v.Parts), fin)
+				}
+			}
+		}
 		// keys and values handed out == recomputed with the raw configured hasher
 		p, _ := s.Mz.Options().NewPath(v.Parts...)
 		k1, err1 := p.MtEntry()
@@ -205,6 +225,21 @@ func (d *drv) scenario(in c02.Input) *c02.Scen {
 		for _, ol := range optsList {
 			o := ol.o
 			prods = append(prods, producer{ol.name + ".PathFromContext", 2, in.TypeTerm, func() (merklize.Path, error) { return o.PathFromContext(in.CtxBytes, in.TypeTerm) }})
+		}
+	}
+	if !in.Cfg && in.SetAfter == 0 && len(in.Ctx) == 0 {
+		// package-level resolvers (inline contexts only: they use the package default document loader)
+		for _, dp := range in.DocPaths {
+			dp := dp
+			prods = append(prods, producer{"merklize.NewPathFromDocument", 1, dp, func() (merklize.Path, error) { return merklize.NewPathFromDocument(in.Doc, dp) }})
+		}
+		if len(in.CtxBytes) > 0 && in.TypeTerm != "" {
+			for _, fp := range in.FieldPaths {
+				fp := fp
+				prods = append(prods,
+					producer{"merklize.NewPathFromContext", 1, in.TypeTerm + "." + fp, func() (merklize.Path, error) { return merklize.NewPathFromContext(in.CtxBytes, in.TypeTerm+"."+fp) }},
+					producer{"merklize.NewFieldPathFromContext", 1, in.TypeTerm + " / " + fp, func() (merklize.Path, error) { return merklize.NewFieldPathFromContext(in.CtxBytes, in.TypeTerm, fp) }})
+			}
 		}
 	}
 	for _, pr := range prods {
@@ -388,6 +423,13 @@ func fixedInput(hi int, seed int64) c02.Input {
 		DocPaths: fields, CtxBytes: cb, TypeTerm: "Person", FieldPaths: fields}
 }
 
+func hashValueArg(v any) any {
+	if b, ok := v.(*big.Int); ok {
+		return b.String()
+	}
+	return v
+}
+
 func (d *drv) boundary(hi int, sh *c02.Shards) {
 	p := c02.Families()[hi].Prime()
 	for _, bd := range boundaryDocs(p) {
@@ -464,9 +506,21 @@ func Run(cfg *common.Config) (*common.Report, error) {
 		if !in.Cfg {
 			in.Hasher = 0
 		}
-		rep.Distinct(fmt.Sprintf("%s|%d|%v", doc.Bytes, in.Hasher, in.Cfg))
+		switch i % 10 {
+		case 3, 6: // SetHasher(B) first, nothing configured: everything follows the live default
+			in.Cfg, in.Hasher, in.DefaultFamily, in.DSLevel = false, 0, 1+cfg.Rng.Intn(nfam-1), false
+		case 4, 8: // built under A, then SetHasher(B), then the queries
+			in.Cfg, in.Hasher, in.DSLevel = false, 0, false
+			in.DefaultFamily = []int{0, 2, 5}[cfg.Rng.Intn(3)]
+			in.SetAfter = 1 + []int{1, 3, 4, 6}[cfg.Rng.Intn(4)]
+		}
+		rep.Distinct(fmt.Sprintf("%s|%d|%v|%d|%d", doc.Bytes, in.Hasher, in.Cfg, in.DefaultFamily, in.SetAfter))
 		s := d.scenario(in)
-		if doc.Expect == "ok" && s.Out.Class != "ok" && in.Hasher < 4 {
+		eff := in.Hasher
+		if !in.Cfg {
+			eff = in.DefaultFamily
+		}
+		if doc.Expect == "ok" && s.Out.Class != "ok" && (eff < 4 || eff == 8) {
 			rep.Fail("c16-valid-rejected", "valid document rejected under a full-size hasher: "+s.Out.Msg, in)
 		}
 		if s.Out.Class == "ok" && i%13 == 0 {
@@ -485,6 +539,15 @@ func Run(cfg *common.Config) (*common.Report, error) {
 		rep.Distinct(fmt.Sprintf("fixed|%d", hi))
 		rep.Count("fixed-typed-document")
 		sh.Add(d.scenario(in))
+		// the same document with the hasher selected through SetHasher only, and with a later SetHasher
+		in2 := fixedInput(0, cfg.Rng.Int63())
+		in2.Cfg, in2.DefaultFamily, in2.DSLevel = false, hi, false
+		rep.Count("sethasher-before-build")
+		sh.Add(d.scenario(in2))
+		in3 := fixedInput(0, cfg.Rng.Int63())
+		in3.Cfg, in3.DefaultFamily, in3.SetAfter, in3.DSLevel = false, hi, 1+(hi+1)%nfam, false
+		rep.Count("sethasher-after-build")
+		sh.Add(d.scenario(in3))
 	}
 	// several configured merklizers on one caller-provided tree (every hasher family)
 	for i := 0; i < cfg.Pick(nfam, 10*nfam); i++ {
